@@ -400,27 +400,31 @@ def gen_matches(rng):
 # ------------------------------------------------------------------------------------------------
 # pass-level cases: one dart.operation for `insert-accfg-op{..},dart-scheduler`
 # ------------------------------------------------------------------------------------------------
-def _amap(n, results):
+def _amap(n, results, consts=None):
     dims = ", ".join(f"d{i}" for i in range(n))
+    consts = consts or [0] * len(results)
 
-    def term(coefs):
+    def term(coefs, c=0):
         parts = []
-        for d, c in enumerate(coefs):
-            if c == 0:
+        for d, a in enumerate(coefs):
+            if a == 0:
                 continue
-            parts.append(f"d{d}" if c == 1 else f"(d{d} * {c})")
+            parts.append(f"d{d}" if a == 1 else f"(d{d} * {a})")
         if not parts:
-            return "0"
+            return str(c)
         s = parts[0]
         for p in parts[1:]:
             s = f"({s} + {p})"
+        if c:
+            s = f"({s} + {c})"
         return s
 
-    return f"affine_map<({dims}) -> ({', '.join(term(r) for r in results)})>"
+    return f"affine_map<({dims}) -> ({', '.join(term(r, c) for r, c in zip(results, consts))})>"
 
 
-def _shape_of(bounds, results):
-    return [sum(c * (bounds[d] - 1) for d, c in enumerate(r)) + 1 for r in results]
+def _shape_of(bounds, results, consts=None):
+    consts = consts or [0] * len(results)
+    return [sum(c * (bounds[d] - 1) for d, c in enumerate(r)) + 1 + k for r, k in zip(results, consts)]
 
 
 def unit(n, d, c=1):
@@ -496,12 +500,24 @@ def gen_pass(rng):
         bounds[i] = max(1, bounds[i] // 2)
     n = len(bounds)
     pats = [[list(r) for r in p] for p in pats]
-    shapes = [_shape_of(bounds, p) for p in pats]
+    consts = [[0] * len(p) for p in pats]
+    if rng.random() < 0.2:
+        # a constant offset on one result of one input operand (the dim must stay inferable from another pure result)
+        o = rng.randrange(len(pats) - 1)
+        r = rng.randrange(len(pats[o]))
+        row = pats[o][r]
+        pure_elsewhere = all(
+            c == 0 or any(rr == unit(n, d) for oo, pp in enumerate(pats) for ri, rr in enumerate(pp) if (oo, ri) != (o, r))
+            for d, c in enumerate(row)
+        )
+        if pure_elsewhere:
+            consts[o][r] = rng.choice([1, 2, 3])
+    shapes = [_shape_of(bounds, p, k) for p, k in zip(pats, consts)]
     tys = [f"memref<{'x'.join(map(str, sh))}xi{b}>" for sh, b in zip(shapes, bits)]
     args = ", ".join(f"%a{i} : {t}" for i, t in enumerate(tys))
     nin = len(pats) - 1
     streams = ", ".join(f"%s{i} : !dart.stream<i{b}>" for i, b in enumerate(bits))
-    maps = ", ".join(_amap(n, p) for p in pats)
+    maps = ", ".join(_amap(n, p, k) for p, k in zip(pats, consts))
     ob = bits[-1]
     pre = ""
     if body_kind == "qmac":
@@ -563,6 +579,7 @@ def gen_pass(rng):
         "text": text,
         "bounds": bounds,
         "patterns": pats,
+        "consts": consts,
         "elem_bytes": [b // 8 for b in bits],
         "template": table,
     }
